@@ -607,10 +607,13 @@ func NewRaft(conf *Config, fsm FSM, logs LogStore, stable StableStore, snaps Sna
 		return nil, err
 	}
 
-	// Scan through the log for any configuration change entries.
+	// Scan through the log for any configuration change entries. The scan has
+	// to start right after the snapshot even when restoreFromCommittedLogs has
+	// already replayed committed entries into the FSM: replaying does not
+	// update r.configurations, so skipping the replayed range would lose every
+	// configuration entry in it.
 	snapshotIndex, _ := r.getLastSnapshot()
-	lastappliedIndex := r.getLastApplied()
-	for index := max(snapshotIndex, lastappliedIndex) + 1; index <= lastLog.Index; index++ {
+	for index := snapshotIndex + 1; index <= lastLog.Index; index++ {
 		var entry Log
 		if err := r.logs.GetLog(index, &entry); err != nil {
 			r.logger.Error("failed to get log", "index", index, "error", err)
@@ -619,6 +622,10 @@ func NewRaft(conf *Config, fsm FSM, logs LogStore, stable StableStore, snaps Sna
 		if err := r.processConfigurationLogEntry(&entry); err != nil {
 			return nil, err
 		}
+	}
+	// A configuration entry at or below the restored commit index is committed.
+	if r.configurations.latestIndex > 0 && r.configurations.latestIndex <= r.getCommitIndex() {
+		r.setCommittedConfiguration(r.configurations.latest, r.configurations.latestIndex)
 	}
 	r.logger.Info("initial configuration",
 		"index", r.configurations.latestIndex,
